@@ -471,13 +471,13 @@ func TestC17(t *testing.T) {
 			for i := 0; i < nw; i++ {
 				var w c17Writer
 				w.Lines = rapid.IntRange(0, 30).Draw(rt, "lines")
-			if c.Kind == "unixgram" && i == 0 && rapid.IntRange(0, 2).Draw(rt, "bulk") == 0 {
-				// sustained traffic: more than one read buffer (128 KiB) in total.
-				// Only on unixgram, where a full receive queue blocks the sender
-				// instead of dropping datagrams.
-				w.Lines = rapid.IntRange(600, 900).Draw(rt, "bulklines")
-				st.Class("datagram-bulk-over-128KiB")
-			}
+				if c.Kind == "unixgram" && i == 0 && rapid.IntRange(0, 2).Draw(rt, "bulk") == 0 {
+					// sustained traffic: more than one read buffer (128 KiB) in total.
+					// Only on unixgram, where a full receive queue blocks the sender
+					// instead of dropping datagrams.
+					w.Lines = rapid.IntRange(600, 900).Draw(rt, "bulklines")
+					st.Class("datagram-bulk-over-128KiB")
+				}
 				np := rapid.IntRange(1, 4).Draw(rt, "npads")
 				for k := 0; k < np; k++ {
 					w.Pads = append(w.Pads, rapid.SampledFrom([]int{0, 1, 10, 80, 300, 5000}).Draw(rt, "pad"))
